@@ -188,6 +188,9 @@ def run(model: Model, rep: Report) -> None:
     # ---------------------------------------------------------------- R7
     _operand_safety(model, rep, spec)
     # ---------------------------------------------------------------- R8
+    from .interp import optional_number_truth_rule
+
+    optional_number_truth_rule(model, rep, "C05-R10", [f for q, f in sorted(model.funcs.items()) if q.startswith("pdfminer.pdfinterp.PDFPageInterpreter.do_")], 8)
     from .c07 import char_width_rule
 
     char_width_rule(model, rep, "C05-R9")
